@@ -17,7 +17,7 @@ from vlib.shrink import shrink_seq
 
 ID = "C10"
 LEVEL = "exploration"
-BUDGET = {"quick": 75, "thorough": 900}
+BUDGET = {"quick": 200, "thorough": 1200}
 RULE = (
     "case = (container class, history of operations from the empty container); "
     "exhaustive part: every history up to depth D (quick 3, thorough 4) over the "
